@@ -253,3 +253,18 @@ def evalJ (F : TFld α) (m : LModel α) (ρ : SEx.Env α) : Except Err (List (Li
 
 end LModel
 end Solverz
+
+namespace Solverz
+namespace LModel
+variable {α : Type}
+
+/-- Hessian-vector product of the reference semantics: entry (r, c) = Σ_k ∂²F_r/∂y_c∂y_k · v_k,
+the derivative with respect to `y_c` of element `r` of `J(y)·v` -/
+def evalH (F : TFld α) (m : LModel α) (ρ : SEx.Env α) (v : Nat → α) : Except Err (List (List α)) := do
+  let r ← m.residual
+  let n := m.L.vars.sum
+  .ok (r.map fun e => (List.range n).map fun c =>
+    (List.range n).foldl (fun acc k => F.add acc (F.mul (SEx.eval F ρ (SEx.diff F c (SEx.diff F k e))) (v k))) F.zero)
+
+end LModel
+end Solverz
